@@ -55,6 +55,8 @@ Obl(e) ==
          <<"quiet", e.panic = "">>,
          <<"outcome-allowed", e.outcome \in AllowedOut(e.avail, 32, {0})>>,
          <<"same-as-std", e.same_outcome /\ e.same_consumed /\ e.same_keys /\ e.same_error>>,
+         \* (the two values GenerateKey returns are independent, as the standard library's are)
+         <<"same-as-std", e.independent>>,
          <<"error-means-no-output", e.outcome = "error" => e.nil_out>> >>
     \* the key types' Equal / Public methods - beyond the listed properties (reported as observations, never a verdict)
     [] e.op = "KeyApi" -> <<
